@@ -633,7 +633,10 @@ pub fn validate_model(sc: &Scenario, scratch: &std::path::Path) -> Result<u64, S
         os::install(make_os(&plain));
         execute_calls_only(&plain);
         let sim = os::uninstall().unwrap();
-        let sim_calls: Vec<Rec> = sim.calls.iter().map(|c| (c.op.to_string(), c.args.clone(), c.result.clone())).collect();
+        // calls on an open handle (write / read / sync of a `fs::File`) are logged by the simulated
+        // file only; the comparison is over the calls that name a path, plus the final tree
+        let by_path = |c: &&os::Call| !matches!(c.op, "file_write" | "file_read" | "fsync" | "fdatasync" | "ftruncate");
+        let sim_calls: Vec<Rec> = sim.calls.iter().filter(by_path).map(|c| (c.op.to_string(), c.args.clone(), c.result.clone())).collect();
         let _ = std::fs::remove_dir_all(&scratch);
         std::fs::create_dir_all(&scratch).map_err(|e| e.to_string())?;
         materialise(&scratch, &plain.init).map_err(|e| format!("materialise: {e}"))?;
@@ -643,7 +646,7 @@ pub fn validate_model(sc: &Scenario, scratch: &std::path::Path) -> Result<u64, S
         let mut real_tree = BTreeMap::new();
         walk_real(&scratch, "", &mut real_tree);
         let _ = std::fs::remove_dir_all(&scratch);
-        let real_calls: Vec<Rec> = real.calls.iter().map(|c| (c.op.to_string(), c.args.clone(), c.result.clone())).collect();
+        let real_calls: Vec<Rec> = real.calls.iter().filter(by_path).map(|c| (c.op.to_string(), c.args.clone(), c.result.clone())).collect();
         for (i, (s, r)) in sim_calls.iter().zip(real_calls.iter()).enumerate() {
             if s != r {
                 return Err(format!("call {i}: model says {s:?}, real std::fs says {r:?}; init {:?}; calls {:?}", plain.init, plain.calls));
